@@ -21,8 +21,8 @@ impl Prop for C15 {
     }
     fn phases(&self, tier: Tier) -> Vec<Phase> {
         vec![
-            Phase::new("histories", tier.pick(40_000, 1_500_000)).min_cases(tier.pick(10_000, 400_000)).timeouts(120, tier.pick(400, 3000)),
-            Phase::new("small-exhaustive", exhaustive_total(tier)).exhaustive(true).min_cases(tier.pick(5000, 500_000)).timeouts(120, tier.pick(400, 3000)),
+            Phase::new("histories", tier.pick(40_000, 800_000)).min_cases(tier.pick(10_000, 200_000)).timeouts(120, tier.pick(400, 3000)),
+            Phase::new("small-exhaustive", exhaustive_total(tier)).exhaustive(true).min_cases(tier.pick(5000, 100_000)).timeouts(120, tier.pick(400, 3000)),
         ]
     }
     fn worker(&self, ctx: &WorkerCtx) -> Box<dyn Worker> {
@@ -149,7 +149,7 @@ fn has_cycle_from(mods: &BTreeMap<usize, Mod>, start: usize) -> Option<Vec<usize
 
 fn exhaustive_total(tier: Tier) -> u64 {
     // histories of length L over 3 modules with an 11-letter alphabet
-    let l = tier.pick(4, 6);
+    let l = tier.pick(4, 5);
     (1..=l).map(|k| 11u64.pow(k)).sum()
 }
 
@@ -494,7 +494,7 @@ fn load_outcome(vm: &gluon::Thread, name: &str, src: &str) -> Outcome {
 impl Worker for W {
     fn gen(&mut self, rng: &mut Rng, idx: u64) -> Option<Value> {
         if self.exhaustive {
-            let maxl = self.tier.pick(4, 6);
+            let maxl = self.tier.pick(4, 5);
             let mut idx = idx;
             let mut len = 1u32;
             loop {
